@@ -22,12 +22,12 @@ package tls
 // status_request (5): fixed 9 bytes, the four trailing zero bytes are not written.
 
 //@ func (*StatusRequestExtension).Len
-//@   property C08 C02
+//@   property C08 C02 C03
 //@   pure
 //@   ensures ret == 9
 
 //@ func (*StatusRequestExtension).Read
-//@   property C08 C02
+//@   property C08 C02 C03
 //@   requires zeroed: len(b) >= 9 ==> b[5] == 0 && b[6] == 0 && b[7] == 0 && b[8] == 0
 //@   note the two empty uint16-prefixed lists (responder_id_list, request_extensions) are not written; Read relies on a zeroed destination
 //@   modifies b[0..9]
@@ -41,12 +41,12 @@ package tls
 // status_request_v2 (17): fixed 13 bytes, the four trailing zero bytes are not written.
 
 //@ func (*StatusRequestV2Extension).Len
-//@   property C08 C02
+//@   property C08 C02 C03
 //@   pure
 //@   ensures ret == 13
 
 //@ func (*StatusRequestV2Extension).Read
-//@   property C08 C02
+//@   property C08 C02 C03
 //@   requires zeroed: len(b) >= 13 ==> b[9] == 0 && b[10] == 0 && b[11] == 0 && b[12] == 0
 //@   note the two empty uint16-prefixed lists of the single OCSPStatusRequest item are not written; Read relies on a zeroed destination
 //@   modifies b[0..13]
@@ -60,12 +60,12 @@ package tls
 // signed_certificate_timestamp (18): empty body, the zero length is not written.
 
 //@ func (*SCTExtension).Len
-//@   property C08 C02
+//@   property C08 C02 C03
 //@   pure
 //@   ensures ret == 4
 
 //@ func (*SCTExtension).Read
-//@   property C08 C02
+//@   property C08 C02 C03
 //@   requires zeroed: len(b) >= 4 ==> b[2] == 0 && b[3] == 0
 //@   note the zero extension_data length is not written; Read relies on a zeroed destination
 //@   modifies b[0..4]
@@ -79,12 +79,12 @@ package tls
 // (UtlsExtendedMasterSecretExtension is an alias of this type.)
 
 //@ func (*ExtendedMasterSecretExtension).Len
-//@   property C08 C02
+//@   property C08 C02 C03
 //@   pure
 //@   ensures ret == 4
 
 //@ func (*ExtendedMasterSecretExtension).Read
-//@   property C08 C02
+//@   property C08 C02 C03
 //@   requires zeroed: len(b) >= 4 ==> b[2] == 0 && b[3] == 0
 //@   note the zero extension_data length is not written; Read relies on a zeroed destination
 //@   modifies b[0..4]
@@ -97,12 +97,12 @@ package tls
 // next_protocol_negotiation (13172 = 0x3374): empty body, the zero length is not written.
 
 //@ func (*NPNExtension).Len
-//@   property C08 C02
+//@   property C08 C02 C03
 //@   pure
 //@   ensures ret == 4
 
 //@ func (*NPNExtension).Read
-//@   property C08 C02
+//@   property C08 C02 C03
 //@   requires zeroed: len(b) >= 4 ==> b[2] == 0 && b[3] == 0
 //@   note the zero extension_data length is not written; Read relies on a zeroed destination
 //@   modifies b[0..4]
@@ -115,12 +115,12 @@ package tls
 // channel_id (30032 = 0x7550, old id 30031 = 0x754f): empty body, the zero length is not written.
 
 //@ func (*FakeChannelIDExtension).Len
-//@   property C08 C02
+//@   property C08 C02 C03
 //@   pure
 //@   ensures ret == 4
 
 //@ func (*FakeChannelIDExtension).Read
-//@   property C08 C02
+//@   property C08 C02 C03
 //@   requires e != nil
 //@   requires zeroed: len(b) >= 4 ==> b[2] == 0 && b[3] == 0
 //@   note the zero extension_data length is not written; Read relies on a zeroed destination
@@ -134,12 +134,12 @@ package tls
 // record_size_limit (28): fixed 6 bytes.
 
 //@ func (*FakeRecordSizeLimitExtension).Len
-//@   property C08 C02
+//@   property C08 C02 C03
 //@   pure
 //@   ensures ret == 6
 
 //@ func (*FakeRecordSizeLimitExtension).Read
-//@   property C08 C02
+//@   property C08 C02 C03
 //@   requires e != nil
 //@   modifies b[0..6]
 //@   ensures short: len(b) < 6 ==> ret0 == 0 && ret1 == io.ErrShortBuffer && unchanged(b)
@@ -151,13 +151,13 @@ package tls
 // ec_point_formats (11): type, be16(1+n), byte(n), n format bytes.
 
 //@ func (*SupportedPointsExtension).Len
-//@   property C08 C02
+//@   property C08 C02 C03
 //@   requires e != nil
 //@   pure
 //@   ensures ret == 5 + len(e.SupportedPoints)
 
 //@ func (*SupportedPointsExtension).Read
-//@   property C08 C02
+//@   property C08 C02 C03
 //@   let n = len(e.SupportedPoints)
 //@   requires e != nil
 //@   requires arr(b) != arr(e.SupportedPoints)
@@ -176,13 +176,13 @@ package tls
 // signature_algorithms (13): type, be16(2+2n), be16(2n), n big-endian schemes.
 
 //@ func (*SignatureAlgorithmsExtension).Len
-//@   property C08 C02
+//@   property C08 C02 C03
 //@   requires e != nil
 //@   pure
 //@   ensures ret == 6 + 2*len(e.SupportedSignatureAlgorithms)
 
 //@ func (*SignatureAlgorithmsExtension).Read
-//@   property C08 C02
+//@   property C08 C02 C03
 //@   let n = len(e.SupportedSignatureAlgorithms)
 //@   requires e != nil
 //@   requires arr(b) != arr(e.SupportedSignatureAlgorithms)
@@ -200,13 +200,13 @@ package tls
 // signature_algorithms_cert (50): same layout as signature_algorithms.
 
 //@ func (*SignatureAlgorithmsCertExtension).Len
-//@   property C08 C02
+//@   property C08 C02 C03
 //@   requires e != nil
 //@   pure
 //@   ensures ret == 6 + 2*len(e.SupportedSignatureAlgorithms)
 
 //@ func (*SignatureAlgorithmsCertExtension).Read
-//@   property C08 C02
+//@   property C08 C02 C03
 //@   let n = len(e.SupportedSignatureAlgorithms)
 //@   requires e != nil
 //@   requires arr(b) != arr(e.SupportedSignatureAlgorithms)
@@ -224,13 +224,13 @@ package tls
 // delegated_credentials (34): same layout as signature_algorithms.
 
 //@ func (*FakeDelegatedCredentialsExtension).Len
-//@   property C08 C02
+//@   property C08 C02 C03
 //@   requires e != nil
 //@   pure
 //@   ensures ret == 6 + 2*len(e.SupportedSignatureAlgorithms)
 
 //@ func (*FakeDelegatedCredentialsExtension).Read
-//@   property C08 C02
+//@   property C08 C02 C03
 //@   let n = len(e.SupportedSignatureAlgorithms)
 //@   requires e != nil
 //@   requires arr(b) != arr(e.SupportedSignatureAlgorithms)
@@ -248,13 +248,13 @@ package tls
 // arbitrary extension: be16(Id), be16(n), n data bytes.
 
 //@ func (*GenericExtension).Len
-//@   property C08 C02
+//@   property C08 C02 C03
 //@   requires e != nil
 //@   pure
 //@   ensures ret == 4 + len(e.Data)
 
 //@ func (*GenericExtension).Read
-//@   property C08 C02
+//@   property C08 C02 C03
 //@   let n = len(e.Data)
 //@   requires e != nil
 //@   requires arr(b) != arr(e.Data)
@@ -269,13 +269,13 @@ package tls
 // GREASE extension: be16(Value), be16(n), n body bytes.
 
 //@ func (*UtlsGREASEExtension).Len
-//@   property C08 C02
+//@   property C08 C02 C03
 //@   requires e != nil
 //@   pure
 //@   ensures ret == 4 + len(e.Body)
 
 //@ func (*UtlsGREASEExtension).Read
-//@   property C08 C02
+//@   property C08 C02 C03
 //@   let n = len(e.Body)
 //@   requires e != nil
 //@   requires arr(b) != arr(e.Body)
@@ -290,13 +290,13 @@ package tls
 // session_ticket (35): type, be16(n), n ticket bytes.
 
 //@ func (*SessionTicketExtension).Len
-//@   property C08 C02
+//@   property C08 C02 C03
 //@   requires e != nil
 //@   pure
 //@   ensures ret == 4 + len(e.Ticket)
 
 //@ func (*SessionTicketExtension).Read
-//@   property C08 C02
+//@   property C08 C02 C03
 //@   let n = len(e.Ticket)
 //@   requires e != nil
 //@   requires arr(b) != arr(e.Ticket)
@@ -311,13 +311,13 @@ package tls
 // cookie (44): type, be16(2+n), be16(n), n cookie bytes.
 
 //@ func (*CookieExtension).Len
-//@   property C08 C02 C17
+//@   property C08 C02 C17 C03
 //@   requires e != nil
 //@   pure
 //@   ensures ret == 6 + len(e.Cookie)
 
 //@ func (*CookieExtension).Read
-//@   property C08 C02 C17
+//@   property C08 C02 C17 C03
 //@   let n = len(e.Cookie)
 //@   requires e != nil
 //@   requires arr(b) != arr(e.Cookie)
@@ -332,13 +332,13 @@ package tls
 // renegotiation_info (0xff01): type, be16(1+n), byte(n), n bytes of renegotiated_connection.
 
 //@ func (*RenegotiationInfoExtension).Len
-//@   property C08 C02
+//@   property C08 C02 C03
 //@   requires e != nil
 //@   pure
 //@   ensures ret == 5 + len(e.RenegotiatedConnection)
 
 //@ func (*RenegotiationInfoExtension).Read
-//@   property C08 C02
+//@   property C08 C02 C03
 //@   let n = len(e.RenegotiatedConnection)
 //@   requires e != nil
 //@   requires arr(b) != arr(e.RenegotiatedConnection)
@@ -354,13 +354,13 @@ package tls
 // token_binding (24): type, be16(3+n), major, minor, byte(n), n key parameters.
 
 //@ func (*FakeTokenBindingExtension).Len
-//@   property C08 C02
+//@   property C08 C02 C03
 //@   requires e != nil
 //@   pure
 //@   ensures ret == 7 + len(e.KeyParameters)
 
 //@ func (*FakeTokenBindingExtension).Read
-//@   property C08 C02
+//@   property C08 C02 C03
 //@   let n = len(e.KeyParameters)
 //@   requires e != nil
 //@   requires arr(b) != arr(e.KeyParameters)
@@ -377,13 +377,13 @@ package tls
 // rejected (after the length check, before anything is written).
 
 //@ func (*PSKKeyExchangeModesExtension).Len
-//@   property C08 C02
+//@   property C08 C02 C03
 //@   requires e != nil
 //@   pure
 //@   ensures ret == 5 + len(e.Modes)
 
 //@ func (*PSKKeyExchangeModesExtension).Read
-//@   property C08 C02
+//@   property C08 C02 C03
 //@   let n = len(e.Modes)
 //@   requires e != nil
 //@   requires arr(b) != arr(e.Modes)
@@ -399,13 +399,13 @@ package tls
 // versions are rejected (after the length check, before anything is written).
 
 //@ func (*SupportedVersionsExtension).Len
-//@   property C08 C02
+//@   property C08 C02 C03
 //@   requires e != nil
 //@   pure
 //@   ensures ret == 5 + 2*len(e.Versions)
 
 //@ func (*SupportedVersionsExtension).Read
-//@   property C08 C02
+//@   property C08 C02 C03
 //@   let n = len(e.Versions)
 //@   requires e != nil
 //@   requires arr(b) != arr(e.Versions)
@@ -424,13 +424,13 @@ package tls
 // 127 algorithms are rejected, but only AFTER the two type bytes have been stored.
 
 //@ func (*UtlsCompressCertExtension).Len
-//@   property C08 C02
+//@   property C08 C02 C03
 //@   requires e != nil
 //@   pure
 //@   ensures ret == 5 + 2*len(e.Algorithms)
 
 //@ func (*UtlsCompressCertExtension).Read
-//@   property C08 C02
+//@   property C08 C02 C03
 //@   let n = len(e.Algorithms)
 //@   requires e != nil
 //@   requires arr(b) != arr(e.Algorithms)
@@ -450,14 +450,14 @@ package tls
 // which are NOT written.
 
 //@ func (*UtlsPaddingExtension).Len
-//@   property C08 C02
+//@   property C08 C02 C03
 //@   requires e != nil
 //@   pure
 //@   ensures pad: e.WillPad ==> ret == 4 + e.PaddingLen
 //@   ensures nopad: !e.WillPad ==> ret == 0
 
 //@ func (*UtlsPaddingExtension).Read
-//@   property C08 C02
+//@   property C08 C02 C03
 //@   let p = e.PaddingLen
 //@   requires e != nil
 //@   requires nonneg: e.WillPad ==> p >= 0
